@@ -221,6 +221,14 @@ def run(F, R, tier):
                         if bi in B.reach([tr[1]], cut_blocks=[hdr_] if hdr_ is not None else ()):
                             guards.append((endpoint_of(short(o[1])), tr))
             mine = [g[1] for g in guards if g[0] == ep]
+            # the flag may be looked at more than once on the way (a helper logs `if updated {..}` and hands the flag on): the guard of
+            # the call is the innermost test - one from whose true edge the call is reached without meeting another test of the flag
+            inner = []
+            for e_ in mine:
+                others = [x[0] for x in mine if x != e_]
+                if bi in B.reach([e_[1]], cut_blocks=([hdr_] if hdr_ is not None else []) + others):
+                    inner.append(e_)
+            mine = inner or mine
             # ... and on that edge it is always called (also when the new document carries no rules: "none" must be installed too)
             for e_ in mine:
                 p2 = B.path([e_[1]], [hdr_] if hdr_ is not None else B.return_blocks(), cut_blocks=[bi])
